@@ -412,7 +412,7 @@ class Unit:
                         vname, sib_lines = sib
                         emit(sib_lines, kind='vacuity', item=it.id)
                 rname = None
-                if reach:
+                if reach and it.attrs.get('reach', 'yes') != 'no' and it.mode != 'macro':
                     rs = reach_sibling(it, body)
                     if rs:
                         rname, rlines = rs
@@ -436,22 +436,34 @@ def contract_fn_name(it):
 
 
 def _split_contract(it):
-    """Return (head_lines_up_to_requires_end, has_requires).  Drops `ensures`/`returns` clauses."""
+    """Return (text up to the end of the requires clause, has_requires).  Drops ensures / returns / decreases clauses,
+    also when the keyword sits on the same line as the signature."""
     keep = []
     has_req = False
     mode = 'sig'
+    kw = re.compile(r'(?<![A-Za-z0-9_])(requires|ensures|returns|default_ensures|decreases|opens_invariants|no_unwind)(?![A-Za-z0-9_])')
     for l in it.contract:
         code = l.split('//')[0]
-        s = code.strip()
-        if re.match(r'^requires\b', s):
-            mode = 'req'
-            has_req = True
-        elif re.match(r'^(ensures|returns|default_ensures)\b', s):
-            mode = 'ens'
-        elif re.match(r'^(decreases|opens_invariants|no_unwind)\b', s):
-            mode = 'other'
+        out = ''
+        pos = 0
+        for m in kw.finditer(code):
+            seg = code[pos:m.start()]
+            if mode in ('sig', 'req'):
+                out += seg
+            w = m.group(1)
+            if w == 'requires':
+                mode = 'req'
+                has_req = True
+                out += 'requires'
+            elif w in ('ensures', 'returns', 'default_ensures'):
+                mode = 'ens'
+            else:
+                mode = 'other'
+            pos = m.end()
         if mode in ('sig', 'req'):
-            keep.append(code.rstrip())
+            out += code[pos:]
+        if out.strip():
+            keep.append(out.rstrip())
     return keep, has_req
 
 
